@@ -4,14 +4,15 @@ PROP = dict(
     properties_files=["C02"],
     design_ref="DESIGN.md section 10, C02",
     technique="Coq proof (corollary of the refinement theorem) that every request answered >= 400 leaves the modelled file system equal to what it was, incl. PUT bodies that break off; correspondence check compares the fails/succeeds bit and the tree afterwards on the exhaustive universe, random histories and a PUT fault matrix",
-    level_text="Machine-checked theorems C02_no_change (for every tree, root and request: status >= 400 implies the state — names, kinds, bytes, times, inside and outside the root — is EQUAL to the one before), C02_put_body_failure (a PUT whose body reader fails fails and changes nothing) and C02_history. Every run executes the real handler on the bounded universe, on random histories and on PUTs whose body fails after k bytes (k around 0, the end, and io.Copy's 32 KiB buffer) onto absent / file / collection / parentless targets, comparing the directory snapshot before and after.",
-    level_note="Trusted as for C01. The upload's write-to-temp-then-rename is one atomic step in the model (the harness checks that no temporary file survives); a crash of the server process between two OS calls and OS failures in the middle of a recursive copy (disk full) are not in the model and cannot be produced by the harness.",
+    level_text="Machine-checked theorems C02_no_change (for every tree, root and request: status >= 400 implies the state — names, kinds, bytes, times, inside and outside the root — is EQUAL to the one before), C02_put_body_failure (a PUT whose body reader fails fails and changes nothing) and C02_history; C02_upload_abort_restores / C02_upload_in_progress / C02_upload_commit / C02_put_is_upload: the OS-call sequence of the upload (createTemp, one write per piece of the body, Remove or Rename), for every division of the body into pieces, every failure point and every new temporary name, restores the EQUAL tree on failure, never differs from the tree before except at the temporary name while in progress, and is the single step of the model. Every run executes the real handler on the bounded universe, on random histories and on PUTs whose body fails after k bytes (k around 0, the end, and io.Copy's 32 KiB buffer) onto absent / file / collection / parentless / nested targets, with the request context cancelled at the same offsets, and beside unrelated files that bear the name of the upload's temporary file, comparing the directory snapshot before and after.",
+    level_note="Trusted as for C01. The upload is one step in serve; C02_put_is_upload proves that step equal to the OS-call sequence of Create (temporary file, writes, remove or rename) under the hypothesis that the temporary name is new (O_EXCL), and the putsteps stage compares the sandbox at every read of the body with that sequence. A crash of the server process between two OS calls and OS failures in the middle of a recursive copy (disk full) are not in the model and cannot be produced by the harness.",
     stages=[
         dict(name="universe", harness="dav", oracle="DAV", args=["-stage", "universe"], oracle_args=["c02"]),
         dict(name="history", harness="dav", oracle="DAV", args=["-stage", "history"], oracle_args=["c02"]),
         dict(name="putfault", harness="dav", oracle="DAV", args=["-stage", "putfault"], oracle_args=["c02"]),
+        dict(name="putsteps", harness="dav", oracle="DAV", args=["-stage", "putsteps"], oracle_args=["c02"]),
     ],
-    rule=UNIVERSE + "; random histories as for C01; PUT fault matrix: body sizes {0,1,5,32767,32768,32769,100000} x failure offsets {0,1,2,size-1,size,32767,32768,32769,none} x targets {absent, existing file, collection, missing parent, parent is a file}; non-trivial = every case; distinct = by digest of (tree, request)",
+    rule=UNIVERSE + "; random histories as for C01; upload steps: PUTs whose body arrives in fixed and random piece divisions (incl. pieces around 32 KiB), ending or failing, onto absent / existing / nested targets and beside files that bear the temporary name, the sandbox observed at every read of the body; PUT fault matrix: body sizes {0,1,5,32767,32768,32769,100000} x failure offsets {0,1,2,size-1,size,32767,32768,32769,none} x targets {absent, existing file, collection, missing parent, parent is a file, nested file}; the same offsets as points at which the request context is cancelled (body readable to the end, or failing one byte later; with and without If-Match / If-None-Match), every other method with an already cancelled context; planted-name trees: the names that exist in the sandbox while the real handler reads a PUT body (discovered by probing twice) and the usual derived names (<t>.part, <t>.tmp, <t>~, .<t>.tmp, <t>.new, <t>.bak, .<t>.swp, <t>.upload, .webdav-upload-0, tmp) each hold an unrelated file while PUTs succeed or fail beside them; non-trivial = every case; distinct = by digest of (tree, request)",
     exhaustive=True,
     exhaustive_universe="every (tree, request) pair of the bounded universe; the full fault matrix",
     trusted_base=DAV_TRUST,
